@@ -116,17 +116,18 @@ class ShaderSpec:
 
     def wgsl(self):
         L = list(self.header)
+        L += [d for d in self.extra_decls if d.startswith("alias ")]
         for c in self.consts:
             L.append(c["decl"])
         for o in self.overrides:
             at = "@id(%d) " % o["id"] if o.get("id") is not None else ""
             d = " = %s" % o["default"] if o.get("default") is not None else ""
-            L.append("%soverride %s: %s%s;" % (at, o["name"], o["ty"], d))
+            L.append("%soverride %s: %s%s;" % (at, o["name"], o.get("decl_ty") or o["ty"], d))
         for sd in self.structs.values():
             L.append(sd.wgsl())
         for g in self.globals:
             L.append(g.decl())
-        L += self.extra_decls
+        L += [d for d in self.extra_decls if not d.startswith("alias ")]
         L.append("fn ident_f(x: f32) -> f32 { return x; }")
         for f in self.funcs:
             L.append(self._func_text(f))
